@@ -310,10 +310,10 @@ def g_scenario(c, n_sched=3):
         # few awaitable fields: a stretched list multiplies every gate below it by a hundred
         sc["plans"] = [[p[0], min(p[1], 40), min(p[2], 80), p[3], min(p[4], 12), long] for p in sc["plans"]]
         sc["long"] = long
-    if not plain and c.chance(100):
+    if not plain and c.chance(128):
         # sources with an asynchronous finalisation: the generator's `finally` awaits a gate, so that a stop,
         # the hook or the end of the response can be observed while a source is still closing
-        sc["plans"] = [(list(p) + [0])[:6] + [c.choose([128, 255])] for p in sc["plans"]]
+        sc["plans"] = [(list(p) + [0])[:6] + [c.choose([128, 255, 255])] for p in sc["plans"]]
         sc["async_close"] = True
     return sc
 
